@@ -785,7 +785,7 @@ func (c *codegen) Visit(node ast.Node) ast.Visitor {
 						continue
 					}
 					var hasCall bool
-					if i == 0 || !multiRet {
+					if (i == 0 || !multiRet) && !isMapKeyCheck { // the map value and the flag are already on the stack
 						hasCall = containsCall(t.Values[i])
 					}
 					if hasCall {
